@@ -2,7 +2,7 @@ INIT Init
 NEXT Next
 CONSTANTS
   Blocks = {"data", "tags", "meta", "cross", "seq", "seq3", "seqbig", "seqts"}
-  Script <- NoScript
+  Script <- RandScript
   T0 = 2000000043
   FutureSlots = 3
   TagShift = 100
